@@ -104,9 +104,12 @@ class X509(object):
         if self.sigalg == RSA_PSS_OID:
             sigalg_hash = signature_algorithm_identifier.getChild(1)
             sigalg_hash = bytes(sigalg_hash.getChild(0).value)
-            self.sigalg = AlgorithmOID.oid[sigalg_hash]
+            oid = sigalg_hash
         else:
-            self.sigalg = AlgorithmOID.oid[self.sigalg]
+            oid = self.sigalg
+        if oid not in AlgorithmOID.oid:
+            raise SyntaxError("Unknown signature algorithm in certificate")
+        self.sigalg = AlgorithmOID.oid[oid]
 
         # Get the tbsCertificate
         tbs_certificate = parser.getChild(0)
